@@ -47,25 +47,42 @@ type c02Quota struct {
 	IsParent bool
 	Lent     bool
 	Min, Max [2]int64
-	HasW     bool
-	W        [2]int64
-	Pods     []c02Pod
-	Deleted  bool
+	// which resource names the quota's spec.max / spec.min list (TestVerifC02TreeDims; everywhere else both are listed).
+	// A name that is not listed has value 0 in Min/Max here. Webhook rules kept by the generator: min names are a subset of
+	// max names; below a first-level quota every quota lists the same max names as its parent and its min names are a
+	// subset of its parent's min names; the shared-weight annotation lists exactly the max names.
+	MaxHas, MinHas [2]bool
+	HasW           bool
+	W              [2]int64
+	Pods           []c02Pod
+	Deleted        bool
 }
 
 func c02QuotaObject(q *c02Quota) *v1alpha1.ElasticQuota {
 	eq := &v1alpha1.ElasticQuota{
 		ObjectMeta: metav1.ObjectMeta{Name: q.Name, Labels: map[string]string{}, Annotations: map[string]string{}},
-		Spec:       v1alpha1.ElasticQuotaSpec{Min: c02ResList(q.Min[0], q.Min[1]), Max: c02ResList(q.Max[0], q.Max[1])},
+		Spec:       v1alpha1.ElasticQuotaSpec{Min: c02ResListOf(q.Min, q.MinHas), Max: c02ResListOf(q.Max, q.MaxHas)},
 	}
 	eq.Labels[extension.LabelQuotaParent] = q.Parent
 	eq.Labels[extension.LabelQuotaIsParent] = fmt.Sprint(q.IsParent)
 	eq.Labels[extension.LabelAllowLentResource] = fmt.Sprint(q.Lent)
 	if q.HasW {
-		b, _ := json.Marshal(c02ResList(q.W[0], q.W[1]))
+		b, _ := json.Marshal(c02ResListOf(q.W, q.MaxHas))
 		eq.Annotations[extension.AnnotationSharedWeight] = string(b)
 	}
 	return eq
+}
+
+// c02ResListOf lists only the resource names flagged in has (cpu in milli-units, memory).
+func c02ResListOf(v [2]int64, has [2]bool) corev1.ResourceList {
+	rl := corev1.ResourceList{}
+	if has[0] {
+		rl[corev1.ResourceCPU] = createQuantity(v[0], corev1.ResourceCPU)
+	}
+	if has[1] {
+		rl[corev1.ResourceMemory] = createQuantity(v[1], corev1.ResourceMemory)
+	}
+	return rl
 }
 
 func c02PodObject(quota string, p c02Pod) *corev1.Pod {
@@ -153,7 +170,20 @@ func c02Qty(rl corev1.ResourceList, d int) int64 {
 
 func TestVerifC02Tree(t *testing.T) {
 	rec := vk.New(t, "C02", "tree")
-	rapid.Check(t, c02TreeCase(rec, false))
+	rapid.Check(t, c02TreeCase(rec, false, false))
+}
+
+// TestVerifC02TreeDims is the same history generator and oracle with quotas that do not list every resource name:
+// spec.max / spec.min of a quota may list cpu only, memory only or both (webhook-valid, see c02Quota), and updates add or
+// drop a resource name from min (anywhere) or from max, min and shared weight together (first-level leaf quotas — below
+// the first level the webhook wants the same max names as the parent). A name that spec.min does not list is a minimum
+// of 0 in that dimension. In a dimension d the sibling set of a parent consists of the children whose max lists d: a
+// quota that does not declare d takes no part in d (pods are accounted to a quota only in the dimensions of its max,
+// and its runtime is reported masked by them), so whatever the parent has in d is divided among the others.
+// (A separate test function: the draw sequences of TestVerifC02Tree / TestVerifC02TreeBuiltin and their regress files stay as they are.)
+func TestVerifC02TreeDims(t *testing.T) {
+	rec := vk.New(t, "C02", "treeDims")
+	rapid.Check(t, c02TreeCase(rec, false, true))
 }
 
 // TestVerifC02TreeBuiltin is the same history generator and oracle, plus pods in the built-in default / system quota
@@ -166,12 +196,12 @@ func TestVerifC02Tree(t *testing.T) {
 // (A separate test function so that the draw sequence of TestVerifC02Tree, and with it its regress files, stays as is.)
 func TestVerifC02TreeBuiltin(t *testing.T) {
 	rec := vk.New(t, "C02", "treeBuiltin")
-	rapid.Check(t, c02TreeCase(rec, true))
+	rapid.Check(t, c02TreeCase(rec, true, false))
 }
 
 var c02BuiltinNames = []string{extension.DefaultQuotaName, extension.SystemQuotaName}
 
-func c02TreeCase(rec *vk.Rec, builtin bool) func(t *rapid.T) {
+func c02TreeCase(rec *vk.Rec, builtin, dims bool) func(t *rapid.T) {
 	return func(t *rapid.T) {
 		c := rec.Begin()
 		defer c.End()
@@ -200,11 +230,28 @@ func c02TreeCase(rec *vk.Rec, builtin bool) func(t *rapid.T) {
 				pname = parent.Name
 			}
 			for k := 0; k < count && nextID < 10; k++ {
-				q := &c02Quota{Name: fmt.Sprintf("q%d", nextID), Parent: pname}
+				q := &c02Quota{Name: fmt.Sprintf("q%d", nextID), Parent: pname, MaxHas: [2]bool{true, true}, MinHas: [2]bool{true, true}}
 				nextID++
 				l := q.Name
 				q.Lent = rapid.Bool().Draw(t, l+"Lent")
+				if dims {
+					if parent == nil {
+						q.MaxHas = rapid.SampledFrom([][2]bool{{true, true}, {true, true}, {true, true}, {true, false}, {false, true}}).Draw(t, l+"MaxNames")
+					} else {
+						q.MaxHas = parent.MaxHas
+					}
+					for d := 0; d < 2; d++ {
+						q.MinHas[d] = q.MaxHas[d] && (parent == nil || parent.MinHas[d]) && rapid.IntRange(0, 3).Draw(t, l+"MinListsName") != 0
+					}
+				}
 				for d := 0; d < 2; d++ {
+					if !q.MaxHas[d] {
+						continue // not listed: Min = Max = 0 in the model
+					}
+					if !q.MinHas[d] {
+						q.Max[d] = c02Val(t, hi, l+"MaxNoMin")
+						continue
+					}
 					if parent == nil {
 						q.Min[d] = c02Val(t, hi, l+"Min")
 					} else {
@@ -223,6 +270,9 @@ func c02TreeCase(rec *vk.Rec, builtin bool) func(t *rapid.T) {
 				if rapid.IntRange(0, 2).Draw(t, l+"HasW") == 0 {
 					q.HasW = true
 					for d := 0; d < 2; d++ {
+						if !q.MaxHas[d] {
+							continue
+						}
 						q.W[d] = rapid.SampledFrom([]int64{0, 1, 1, 2, 3, 5, q.Max[d], c02Max64(1, hi/2)}).Draw(t, l+"W")
 					}
 				}
@@ -364,6 +414,10 @@ func c02TreeCase(rec *vk.Rec, builtin bool) func(t *rapid.T) {
 		if builtin {
 			opKinds = append(opKinds, "builtinPodAdd", "builtinPodAdd", "builtinPodDelete")
 		}
+		if dims {
+			opKinds = append(opKinds, "minNames", "minNames", "minNames", "maxNames", "maxNames", "maxNames")
+		}
+		sawMinDrop, sawMinDropNonZero, sawMinAdd, sawMaxDrop, sawMaxAdd := false, false, false, false, false
 		nOps := rapid.IntRange(0, 8).Draw(t, "nOps")
 		sawUpdate, sawMidRefresh, sawToggle := false, false, false
 		sawReparent, sawReparentScaling, sawReparentSubtree := false, false, false
@@ -373,6 +427,71 @@ func c02TreeCase(rec *vk.Rec, builtin bool) func(t *rapid.T) {
 			live := st.live()
 			q := live[rapid.IntRange(0, len(live)-1).Draw(t, l+"Q")]
 			switch rapid.SampledFrom(opKinds).Draw(t, l+"Kind") {
+			case "minNames":
+				// spec.min starts or stops listing a resource name. Stop: no child may still list it. Start: max lists it, the
+				// parent's min (below the first level) lists it, and the value fits like in the "min" op.
+				d := rapid.IntRange(0, 1).Draw(t, l+"Dim")
+				if q.MinHas[d] {
+					ok := true
+					for _, ch := range st.children(q.Name) {
+						if ch.MinHas[d] {
+							ok = false
+						}
+					}
+					if ok {
+						sawMinDrop = true
+						if q.Min[d] > 0 {
+							sawMinDropNonZero = true
+						}
+						st.logf("min of %s stops listing dimension %d (was %d)", q.Name, d, q.Min[d])
+						q.MinHas[d], q.Min[d] = false, 0
+						_ = gqm.UpdateQuota(c02QuotaObject(q))
+						sawUpdate = true
+					}
+				} else if q.MaxHas[d] {
+					up := q.Max[d]
+					ok := true
+					if p, has := st.byName[q.Parent]; has {
+						ok = p.MinHas[d]
+						room := p.Min[d]
+						for _, sib := range st.children(q.Parent) {
+							if sib != q {
+								room -= sib.Min[d]
+							}
+						}
+						up = c02Min64(up, room)
+					}
+					if ok && up >= 0 {
+						q.MinHas[d], q.Min[d] = true, c02Val(t, up, l+"NewMinValue")
+						_ = gqm.UpdateQuota(c02QuotaObject(q))
+						st.logf("min of %s starts listing dimension %d: %d", q.Name, d, q.Min[d])
+						sawMinAdd, sawUpdate = true, true
+					}
+				}
+			case "maxNames":
+				// max (and with it min and the shared weight) of a first-level leaf quota starts or stops listing a resource name;
+				// at least one name stays. Not with ElasticQuotaGuaranteeUsage: what a quota "has allocated" in a dimension it no
+				// longer declares is not something the statement speaks about.
+				d := rapid.IntRange(0, 1).Draw(t, l+"Dim")
+				if q.Parent == extension.RootQuotaName && !q.IsParent && !guaranteeUsage {
+					if q.MaxHas[d] && q.MaxHas[1-d] {
+						st.logf("max of %s stops listing dimension %d (max %d min %d)", q.Name, d, q.Max[d], q.Min[d])
+						q.MaxHas[d], q.MinHas[d], q.Max[d], q.Min[d], q.W[d] = false, false, 0, 0, 0
+						_ = gqm.UpdateQuota(c02QuotaObject(q))
+						sawMaxDrop, sawUpdate = true, true
+					} else if !q.MaxHas[d] {
+						q.MaxHas[d], q.Max[d] = true, c02Val(t, hi, l+"NewMaxValue")
+						if q.HasW {
+							q.W[d] = rapid.SampledFrom([]int64{0, 1, 2, q.Max[d]}).Draw(t, l+"NewWValue")
+						}
+						if rapid.Bool().Draw(t, l+"AlsoMin") {
+							q.MinHas[d], q.Min[d] = true, c02Val(t, q.Max[d], l+"NewMinValue")
+						}
+						_ = gqm.UpdateQuota(c02QuotaObject(q))
+						st.logf("max of %s starts listing dimension %d: max %d min %d", q.Name, d, q.Max[d], q.Min[d])
+						sawMaxAdd, sawUpdate = true, true
+					}
+				}
 			case "builtinPodAdd":
 				addBuiltinPod(l + "bpod")
 			case "builtinPodDelete":
@@ -405,6 +524,9 @@ func c02TreeCase(rec *vk.Rec, builtin bool) func(t *rapid.T) {
 			case "min":
 				// keep the tree webhook-valid: own children's mins <= new min <= max, and siblings' sum <= parent's min
 				for d := 0; d < 2; d++ {
+					if !q.MinHas[d] {
+						continue
+					}
 					lo, up := int64(0), q.Max[d]
 					for _, ch := range st.children(q.Name) {
 						lo += ch.Min[d]
@@ -427,6 +549,9 @@ func c02TreeCase(rec *vk.Rec, builtin bool) func(t *rapid.T) {
 				sawUpdate = true
 			case "max":
 				for d := 0; d < 2; d++ {
+					if !q.MaxHas[d] {
+						continue
+					}
 					q.Max[d] = q.Min[d] + c02Val(t, hi-q.Min[d], l+"NewMax")
 				}
 				_ = gqm.UpdateQuota(c02QuotaObject(q))
@@ -435,6 +560,9 @@ func c02TreeCase(rec *vk.Rec, builtin bool) func(t *rapid.T) {
 			case "weight":
 				q.HasW = true
 				for d := 0; d < 2; d++ {
+					if !q.MaxHas[d] {
+						continue
+					}
 					q.W[d] = rapid.SampledFrom([]int64{0, 1, 2, 3, 7, q.Max[d], c02Max64(1, hi/2)}).Draw(t, l+"NewW")
 				}
 				_ = gqm.UpdateQuota(c02QuotaObject(q))
@@ -474,6 +602,9 @@ func c02TreeCase(rec *vk.Rec, builtin bool) func(t *rapid.T) {
 				for _, np := range live {
 					if !np.IsParent || np.Name == q.Parent || inSubtree(np) {
 						continue
+					}
+					if np.MaxHas != q.MaxHas || (q.MinHas[0] && !np.MinHas[0]) || (q.MinHas[1] && !np.MinHas[1]) {
+						continue // the webhook wants the parent's max names and min names within the parent's
 					}
 					depthNP := 1
 					for p := np.Parent; p != extension.RootQuotaName; p = st.byName[p].Parent {
@@ -564,6 +695,20 @@ func c02TreeCase(rec *vk.Rec, builtin bool) func(t *rapid.T) {
 		c.ClassIf(sawReparent, "reparent")
 		c.ClassIf(sawReparentScaling, "reparent-with-scaling-relevant-mins")
 		c.ClassIf(sawReparentSubtree, "reparent-of-a-subtree")
+		if dims {
+			partial := false
+			for _, q := range st.live() {
+				if q.MaxHas != [2]bool{true, true} || q.MinHas != [2]bool{true, true} {
+					partial = true
+				}
+			}
+			c.ClassIf(partial, "dims:some-quota-lists-not-every-resource-name")
+			c.ClassIf(sawMinDrop, "dims:min-stops-listing-a-name")
+			c.ClassIf(sawMinDropNonZero, "dims:min-stops-listing-a-name-with-nonzero-value")
+			c.ClassIf(sawMinAdd, "dims:min-starts-listing-a-name")
+			c.ClassIf(sawMaxDrop, "dims:max-stops-listing-a-name")
+			c.ClassIf(sawMaxAdd, "dims:max-starts-listing-a-name")
+		}
 		if builtin {
 			nb, nbAssigned := 0, 0
 			for _, name := range c02BuiltinNames {
@@ -608,11 +753,22 @@ func c02TreeCase(rec *vk.Rec, builtin bool) func(t *rapid.T) {
 			}
 		}
 		for _, pn := range parents {
-			kids := st.children(pn)
-			if len(kids) == 0 {
+			allKids := st.children(pn)
+			if len(allKids) == 0 {
 				continue
 			}
 			for d := 0; d < 2; d++ {
+				// the children that declare dimension d (all of them outside TestVerifC02TreeDims)
+				var kids []*c02Quota
+				for _, k := range allKids {
+					if k.MaxHas[d] {
+						kids = append(kids, k)
+					}
+				}
+				c.ClassIf(len(kids) < len(allKids) && len(kids) > 0, "dims:sibling-set-without-quotas-that-do-not-declare-the-dimension")
+				if len(kids) == 0 {
+					continue
+				}
 				var total int64
 				if pn == extension.RootQuotaName {
 					// independent: cluster total minus what the assigned default/system pods use (harness model)
